@@ -50,6 +50,21 @@ def load_known():
     return known, fixed
 
 
+def _save_coverage():
+    """Audit aid (tools/coverage_audit.sh): when the runner is started under coverage.py, flush the data before os._exit."""
+    if not os.environ.get('COVERAGE_PROCESS_START'):
+        return
+    try:
+        import coverage
+
+        cov = coverage.Coverage.current()
+        if cov is not None:
+            cov.stop()
+            cov.save()
+    except Exception:  # noqa: BLE001
+        pass
+
+
 # --------------------------------------------------------------------------- child side
 def _child_main(modname, cases_path, out_path, start, stop):
     """Run cases[start:stop] sequentially; append one JSON line per case to out_path."""
@@ -121,8 +136,10 @@ def _child_main(modname, cases_path, out_path, start, stop):
         out.flush()
         if res.get('exit_after'):
             # the case left the process dirty (e.g. a hung library thread): start a fresh runner
+            _save_coverage()
             os._exit(4)
     out.close()
+    _save_coverage()
     os._exit(0)
 
 
